@@ -13,6 +13,7 @@ import Mitx.Driver.Comparers
 import Mitx.Driver.MathArray
 import Mitx.Driver.Sampling
 import Mitx.Driver.Domain
+import Mitx.Driver.Schema
 open Lean
 
 def dispatch (op : String) (j : Json) : Except String Json :=
@@ -35,6 +36,7 @@ def dispatch (op : String) (j : Json) : Except String Json :=
   | "restrict" => Drv.restrict j
   | "marr" => Drv.marr j
   | "domain" => Drv.domainOp j
+  | "schema_validate" => Drv.schemaValidate j
   | "samp_real" => Drv.sampReal j
   | "samp_int" => Drv.sampInt j
   | "samp_sym" => Drv.sampSym j
